@@ -205,9 +205,15 @@ def _repr_task(task, out):
         out["nontrivial"] += ng
         try:
             std = QBitsTensor(qt, 0, gs, torch.Size((N, K)), (K, 1), codes.clone(), sc.clone(), zp.clone())
-            awq = AWQBitsTensor(qt, 0, gs, torch.Size((N, K)), (K, 1), codes.clone(), sc.clone(), zp.clone())
             d_std = std.dequantize().to(torch.float64)
+            # the optimized tensor is built from the standard tensor's own inner tensors, like QBitsTensor.optimize()/create() do
+            src = (std._data.unpack(), std._scale, std._zeropoint)
+            snap = [t.clone() for t in src]
+            awq = AWQBitsTensor(qt, 0, gs, torch.Size((N, K)), (K, 1), *src)
             d_awq = awq.dequantize().to(torch.float64)
+            if not all(torch.equal(a, b) for a, b in zip(src, snap)) or not bool((std.dequantize().to(torch.float64) == d_std).all()):
+                out["violations"].append(violation(PID, case, dict(fields, sub="source_modified"),
+                                                   f"source_modified: building the AWQ representation modified the codes/scale/zero-point tensors it was given (the standard tensor sharing them no longer denotes the same weights) ({N}x{K})"))
         except Exception as e:  # noqa
             out["violations"].append(violation(PID, case, dict(fields, sub="raised"), f"raised: building/dequantizing the AWQ representation raised {type(e).__name__}: {str(e)[:200]}"))
             continue
